@@ -325,6 +325,58 @@ def filters_chunk(_):
     return acc
 
 
+# ---------------------------------------------------------------------------
+# call histories: the value a function returns does not depend on the calls made before it (mc/history.py)
+
+def lib_call(entry):
+    """entry = (label, function name, argument spec) -> repr of the result (or of the exception type)."""
+    from dashlive.utils import date_time, timezone
+    _, fn, spec = entry
+
+    def build(x):
+        if isinstance(x, (list, tuple)) and x and x[0] == 'dt':
+            _, iso, off, how = x
+            d = datetime.datetime.fromisoformat(iso)
+            if off is None:
+                return d
+            if how == 'repo':
+                tz = timezone.UTC() if off == 0 else timezone.FixedOffsetTimeZone(off_text(off))
+            else:
+                tz = datetime.timezone(datetime.timedelta(minutes=off))
+            return d.replace(tzinfo=datetime.timezone.utc).astimezone(tz)
+        if isinstance(x, (list, tuple)) and x and x[0] == 'td':
+            return datetime.timedelta(microseconds=x[1])
+        return x
+    args = [build(a) for a in spec]
+    try:
+        r = getattr(date_time, fn)(*args)
+    except Exception as e:
+        return f'raises {type(e).__name__}'
+    if isinstance(r, datetime.datetime):
+        return f'{r.isoformat()} {r.utcoffset()}'
+    return repr(r)
+
+
+def call_alphabet(tier):
+    out = []
+    inst = '2024-02-29T23:59:59.290000'
+    for off, how in ((0, 'repo'), (0, 'stdlib'), (60, 'repo'), (-570, 'stdlib'), (None, 'naive')):
+        out.append((f'to_iso_datetime|{off}|{how}', 'to_iso_datetime', [['dt', inst, off, how]]))
+    out.append(('to_iso_datetime|other-instant', 'to_iso_datetime', [['dt', '2024-03-01T00:00:00', 0, 'repo']]))
+    for text in ('2024-02-29T23:59:59.29Z', '2024-03-01T00:59:59.290000+01:00', '2024-02-29T14:29:59.29-09:30',
+                 '2024-02-29T23:59:59', 'PT4.004S', 'PT1H0M0.5S', 'P1DT1S', '2024-02-29'):
+        out.append((f'from_isodatetime|{text}', 'from_isodatetime', [text]))
+    for v in (0, 0.9996, 59.9996, 4.004, '4.004', 86400, 3599.9995):
+        out.append((f'toIsoDuration|{v!r}', 'toIsoDuration', [v]))
+    for us in (0, 1, 999999, 4004000, 86400000001):
+        out.append((f'toIsoDuration|td{us}', 'toIsoDuration', [['td', us]]))
+        out.append((f'timedelta_to_timecode|{us}|90000', 'timedelta_to_timecode', [['td', us], 90000]))
+        out.append((f'multiply_timedelta|{us}|48000', 'multiply_timedelta', [['td', us], 48000]))
+    for tc, ts in ((0, 1), (1, 3), (90001, 90000), (2 ** 32 + 1, 10 ** 7)):
+        out.append((f'timecode_to_timedelta|{tc}|{ts}', 'timecode_to_timedelta', [tc, ts]))
+    return out
+
+
 def _dispatch(item):
     kind, arg = item
     return {'dur': duration_chunk, 'whole': whole_seconds_chunk, 'dtb': datetime_boundary_chunk,
@@ -358,6 +410,10 @@ def run(ctx):
         items.append(('tick', ts))
     items.append(('filt', None))
     ctx.merge_all(ctx.pmap(_dispatch, items, chunksize=2))
+    from mc import history
+    alpha = call_alphabet(ctx.tier)
+    ctx.merge_all(ctx.pmap(history.call_pair_item, [('C19', a, alpha, 'props.c19:lib_call') for a in range(len(alpha))]))
+    ctx.extra.update(call_history_alphabet=[a[0] for a in alpha], call_history_pairs=len(alpha) * (len(alpha) - 1))
     ctx.acc.counts['transitions'] = ctx.acc.counts['evaluations']
     ctx.acc.counts['traces'] = ctx.acc.counts['evaluations']
     ctx.extra.update(
@@ -373,6 +429,10 @@ def replay(record):
     from dashlive.utils import date_time, timezone
     acc = core.Acc()
     k = record['kind']
+    if k == 'call-history-pair':
+        from mc import history
+        a = history.run_forked(history.call_pair_item, ('C19', 0, [tuple(record['a']), tuple(record['b'])], record['runner']))
+        return [(s, v[0]['what']) for s, v in a.viol.items()]
     if k == 'duration':
         form = record['form']
         if form == 'timedelta':
